@@ -22,7 +22,7 @@ structure WInv (s : St α) : Prop where
   asyncNoLock : s.sync = false → s.lockHeld = false ∧ s.syncWrote = false
   brokenMono : s.trClosed = true → s.broken = true
   noOwnerBatch : s.broken = false → s.snd = none → s.batch = []
-  failedBroken : s.snd = some .failed → s.broken = true
+  failedBroken : s.snd = some .failed ∨ s.snd = some .failedStore → s.broken = true
   writevBatch : s.snd = some .writev → s.batch ≠ []
   putPos : ∀ k, s.snd = some (.put k) → 0 < k
   qLe : s.q.length ≤ s.cap
@@ -133,9 +133,52 @@ theorem inv_sndFailStore (s s' : St α) (h : WInv s) (hs : step s .sndFailStore 
   inv_close
 
 theorem inv_noSpace (s s' : St α) (h : WInv s) (hs : step s .noSpace = some s') : WInv s' := by
+  obtain ⟨fifo, owner, execLe, excl, idleClean, idleFlushed, heldFlushed, storeReady, flushReady, putReady, len1Ready,
+    noStrand, flushedLe, syncNoSender, asyncNoLock, brokenMono, noOwnerBatch, failedBroken, writevBatch, putPos, qLe, batchLe, pollRoom⟩ := h
+  simp only [step] at hs
+  split at hs <;> simp at hs
+  subst hs; inv_close
+
+theorem inv_beginWrite (s s' : St α) (h : WInv s) (hs : step s .beginWrite = some s') : WInv s' := by
+  obtain ⟨fifo, owner, execLe, excl, idleClean, idleFlushed, heldFlushed, storeReady, flushReady, putReady, len1Ready,
+    noStrand, flushedLe, syncNoSender, asyncNoLock, brokenMono, noOwnerBatch, failedBroken, writevBatch, putPos, qLe, batchLe, pollRoom⟩ := h
+  simp only [step] at hs
+  split at hs <;> simp at hs
+  subst hs; inv_close
+
+theorem inv_rejectWrite (s s' : St α) (h : WInv s) (hs : step s .rejectWrite = some s') : WInv s' := by
   simp only [step] at hs
   split at hs <;> simp at hs
   subst hs; exact h
+
+theorem inv_sndFailMark (s s' : St α) (h : WInv s) (hs : step s .sndFailMark = some s') : WInv s' := by
+  obtain ⟨fifo, owner, execLe, excl, idleClean, idleFlushed, heldFlushed, storeReady, flushReady, putReady, len1Ready,
+    noStrand, flushedLe, syncNoSender, asyncNoLock, brokenMono, noOwnerBatch, failedBroken, writevBatch, putPos, qLe, batchLe, pollRoom⟩ := h
+  simp only [step] at hs
+  split at hs <;> simp at hs
+  subst hs; inv_close
+
+theorem inv_closeLen (s s' : St α) (h : WInv s) (hs : step s .closeLen = some s') : WInv s' := by
+  obtain ⟨fifo, owner, execLe, excl, idleClean, idleFlushed, heldFlushed, storeReady, flushReady, putReady, len1Ready,
+    noStrand, flushedLe, syncNoSender, asyncNoLock, brokenMono, noOwnerBatch, failedBroken, writevBatch, putPos, qLe, batchLe, pollRoom⟩ := h
+  simp only [step] at hs
+  split at hs
+  · split at hs <;> simp at hs <;> subst hs <;> inv_close
+  · simp at hs
+
+theorem inv_abortCtx (s s' : St α) (h : WInv s) (hs : step s .abortCtx = some s') : WInv s' := by
+  obtain ⟨fifo, owner, execLe, excl, idleClean, idleFlushed, heldFlushed, storeReady, flushReady, putReady, len1Ready,
+    noStrand, flushedLe, syncNoSender, asyncNoLock, brokenMono, noOwnerBatch, failedBroken, writevBatch, putPos, qLe, batchLe, pollRoom⟩ := h
+  simp only [step] at hs
+  split at hs <;> simp at hs
+  subst hs; inv_close
+
+theorem inv_abortClosed (s s' : St α) (h : WInv s) (hs : step s .abortClosed = some s') : WInv s' := by
+  obtain ⟨fifo, owner, execLe, excl, idleClean, idleFlushed, heldFlushed, storeReady, flushReady, putReady, len1Ready,
+    noStrand, flushedLe, syncNoSender, asyncNoLock, brokenMono, noOwnerBatch, failedBroken, writevBatch, putPos, qLe, batchLe, pollRoom⟩ := h
+  simp only [step] at hs
+  split at hs <;> simp at hs
+  subst hs; inv_close
 
 theorem inv_lingLen (s s' : St α) (i : Nat) (h : WInv s) (hs : step s (.lingLen i) = some s') : WInv s' := by
   obtain ⟨fifo, owner, execLe, excl, idleClean, idleFlushed, heldFlushed, storeReady, flushReady, putReady, len1Ready,
@@ -243,6 +286,10 @@ theorem inv_step (s s' : St α) (a : Act α) (h : WInv s) (hs : step s a = some 
   cases a with
   | enqueue p => exact inv_enqueue s s' p h hs
   | noSpace => exact inv_noSpace s s' h hs
+  | beginWrite => exact inv_beginWrite s s' h hs
+  | rejectWrite => exact inv_rejectWrite s s' h hs
+  | abortCtx => exact inv_abortCtx s s' h hs
+  | abortClosed => exact inv_abortClosed s s' h hs
   | casWriter => exact inv_casWriter s s' h hs
   | exec => exact inv_exec s s' h hs
   | sndRecv => exact inv_sndRecv s s' h hs
@@ -252,6 +299,7 @@ theorem inv_step (s s' : St α) (a : Act α) (h : WInv s) (hs : step s a = some 
   | sndLen1 => exact inv_sndLen1 s s' h hs
   | sndFlush ok => exact inv_sndFlush s s' ok h hs
   | sndStore => exact inv_sndStore s s' h hs
+  | sndFailMark => exact inv_sndFailMark s s' h hs
   | sndFailStore => exact inv_sndFailStore s s' h hs
   | lingLen i => exact inv_lingLen s s' i h hs
   | lingCas i => exact inv_lingCas s s' i h hs
@@ -259,6 +307,7 @@ theorem inv_step (s s' : St α) (a : Act α) (h : WInv s) (hs : step s a = some 
   | syncWrite p ok => exact inv_syncWrite s s' p ok h hs
   | syncFlush => exact inv_syncFlush s s' h hs
   | closeCas => exact inv_closeCas s s' h hs
+  | closeLen => exact inv_closeLen s s' h hs
   | closeLoad => exact inv_closeLoad s s' h hs
   | closeSleep => exact inv_closeSleep s s' h hs
   | closeSetErr => exact inv_closeSetErr s s' h hs
